@@ -58,7 +58,8 @@ def plan(tier, seed):
     n = 25 if tier == "quick" else 150
     shards = [dict(seed=seed, shard=i, n=n, mode="inproc")
               for i in range(12)]
-    shards.append(dict(seed=seed, shard=50, mode="window"))
+    shards.append(dict(seed=seed, shard=50, mode="window",
+                       lifecycles=30 if tier == "quick" else 300))
     shards += [dict(seed=seed, shard=60 + i, mode="xproc",
                     rounds=8 if tier == "quick" else 40) for i in range(3)]
     return shards
@@ -782,6 +783,70 @@ def address_leg(res, rng, tmpdir):
             f"{used} [{desc}]", case=desc)
 
 
+def lifecycle_leg(res, rng, n):
+    """participants of ParallelEtherCat.run() come and go (C23's gate
+    scheduler runs the real run()); a participant leaves only while another
+    one stays, until the end.  Whoever is on the loop at the same time must
+    lock and count in the same mailbox lock file: the file a newcomer opens
+    is the file the ones already running hold."""
+    from . import c23
+    for _ in range(n):
+        npart = rng.choice([3, 3, 4])
+        inside, outside = [], list(range(npart))
+        rng.shuffle(outside)
+        spec, story = [], []
+        # grow to two, then alternate leaves (never the last one) and joins
+        while outside or inside:
+            can_leave = len(inside) >= 2 or (inside and not outside)
+            if outside and (not can_leave or rng.random() < 0.55):
+                p = outside.pop()
+                inside.append(p)
+                spec.append((p, ("hold",)))
+                story.append(f"join {p}")
+            else:
+                p = inside.pop(rng.randrange(len(inside)))
+                spec.append((p, None))
+                story.append(f"leave {p}")
+        trace, status, events = c23.run_schedule(
+            (), npart, rng.getrandbits(16), hostile=True,
+            director=c23.segments(spec))
+        desc = dict(kind="lifecycle", participants=npart, story=story)
+        res.case([desc], nontrivial=True)
+        res.count("lifecycle_histories")
+        if status != "finished":
+            if status == "stuck":
+                res.inconc(f"lifecycle history {story}: scheduler watchdog")
+            else:
+                res.violation("unexplained:lifecycle-" + status,
+                              f"history {story} ended '{status}'", case=desc)
+            continue
+        live = {}
+        for _, p, op, d in events:
+            if op == "failed":
+                res.violation("unexplained:lifecycle-participant-failed",
+                              f"participant {p} failed in history {story}: "
+                              f"{d}", case=desc)
+                break
+            if op == "running-begin":
+                res.count("lifecycle_joins")
+                clash = [q for q, f in live.items()
+                         if f != d.get("mbx_file")]
+                if clash and d.get("mbx_file") is not None:
+                    res.violation(
+                        "unexplained:participants-on-different-mailbox-"
+                        "lock-files",
+                        f"history {story}: participant {p} joins with a "
+                        f"mailbox lock file (inode {d['mbx_file']}) that is "
+                        f"not the one participants {clash} are holding "
+                        f"(inode {live[clash[0]]})", case=desc)
+                    break
+                if live:
+                    res.count("lifecycle_joins_next_to_running_participants")
+                live[p] = d.get("mbx_file")
+            elif op == "running-end":
+                live.pop(p, None)
+
+
 def run_shard(params):
     res = Result()
     rng = random.Random(params["seed"] * 100291 + params["shard"])
@@ -840,6 +905,7 @@ def run_shard(params):
                                          errors=errors[:4]))
         elif params["mode"] == "window":
             window_leg(res, tmpdir)
+            lifecycle_leg(res, rng, params.get("lifecycles", 30))
         else:
             for _ in range(params["rounds"]):
                 xproc_round(rng, tmpdir, res)
